@@ -65,6 +65,15 @@ Definition step_op (op : list tok) : list tok :=
         | Reset => [TS "reset"]
         end
       | _ => [TS "badop"] end
+    else if name =? "h2t" then
+      (* a request trailer block: h2t <length_framed 0|1> (name value)* *)
+      match args with
+      | TN lf :: kv =>
+        match accept_trailers (Z.eqb lf 1) (pairs kv) with
+        | None => [TS "reject"]
+        | Some ts => [TS "accept"; TB (if Z.eqb lf 1 then [] else serialize_trailers ts)]
+        end
+      | _ => [TS "badop"] end
     else if name =? "cuts" then []
     else [TS "badop"]
   | _ => [TS "badop"]
